@@ -754,7 +754,132 @@ def install_c02():
                 patch_everywhere(fn, wrap_edit("manipulation." + name, fn))
 
 
-INSTALLERS = {"C02": install_c02, "C01": install_c01, "C03": install_c03, "C04": install_c04, "C12": install_c12, "C13": install_c13, "C15": install_c15, "C16": install_c16}
+# ---------------------------------------------------------------------------------------
+# C07: after a gene knock-out (Gene.knock_out, knock_out_model_genes) a reaction is closed
+# iff its rule - read by an independent parser - is false with the non-functional genes
+# absent; every other reaction keeps the bounds it had before the call.
+# ---------------------------------------------------------------------------------------
+def install_c07():
+    import cobra
+    import cobra.manipulation.delete as md
+    from cv import gen, refmodel
+
+    depth = [0]
+
+    def wrap(where, fn, model_of):
+        @functools.wraps(fn)
+        def ko(*a, **k):
+            m = model_of(*a, **k)
+            before = None
+            if depth[0] == 0 and not busy() and isinstance(m, cobra.Model) and len(m.reactions) <= BIG:
+                with _Guard():
+                    before = {r.id: tuple(r.bounds) for r in m.reactions}
+            depth[0] += 1
+            try:
+                return fn(*a, **k)
+            finally:
+                depth[0] -= 1
+                if before is not None and sys.exc_info()[0] is None:
+                    with _Guard():
+                        count("C07.knockouts_checked")
+                        try:
+                            absent = {g.id for g in m.genes if not g.functional}
+                            for r in m.reactions:
+                                rule = r.gene_reaction_rule
+                                if r.id not in before:
+                                    continue
+                                if rule and any(ch in rule for ch in "\"'"):
+                                    count("C07.rules_with_quotes_skipped")
+                                    continue
+                                alive = gen.gpr_eval(refmodel.parse_rule(rule), absent) if rule else True
+                                now = tuple(r.bounds)
+                                if not alive and now != (0, 0):
+                                    violation("C07", f"C07/suite/{where}/not-disabled-although-rule-false", f"{r.id} rule {rule!r} is false without {sorted(absent)} but bounds are {now}")
+                                    break
+                                if alive and now != before[r.id]:
+                                    violation("C07", f"C07/suite/{where}/bounds-changed-although-rule-true", f"{r.id} rule {rule!r} is true without {sorted(absent)} but bounds went {before[r.id]} -> {now}")
+                                    break
+                                if bool(r.functional) != alive:
+                                    violation("C07", f"C07/suite/{where}/reaction.functional", f"{r.id}.functional is {r.functional}, rule {rule!r} evaluates to {alive} without {sorted(absent)}")
+                                    break
+                        except Exception as e:
+                            count("C07.oracle_errors")
+                            emit({"k": "oracle_error", "prop": "C07", "what": where, "err": repr(e)[:300], "test": _S["test"]})
+
+        return ko
+
+    cobra.Gene.knock_out = wrap("Gene.knock_out", cobra.Gene.knock_out, lambda self, *a, **k: getattr(self, "_model", None))
+    fn = md.knock_out_model_genes
+    patch_everywhere(fn, wrap("knock_out_model_genes", fn, lambda model, *a, **k: model))
+
+
+# ---------------------------------------------------------------------------------------
+# C20: every summary object built by a test is judged against the solution it describes
+# (given, or the defaulted pFBA solution captured at the summary module's own call).
+# ---------------------------------------------------------------------------------------
+def install_c20():
+    import importlib
+
+    import cobra
+    import pandas as pd
+    from cv.props import c20
+
+    acc = SuiteAcc("C20")
+    captured = {}
+    for modname in ("cobra.summary.model_summary", "cobra.summary.metabolite_summary", "cobra.summary.reaction_summary"):
+        importlib.import_module(modname)
+        mod = sys.modules[modname]
+        orig = mod.pfba
+
+        def tap(*a, _orig=orig, **k):
+            s = _orig(*a, **k)
+            captured["last"] = s
+            return s
+
+        mod.pfba = tap
+
+    def wrap(kind, fn):
+        @functools.wraps(fn)
+        def summary(self, solution=None, fva=None):
+            captured.pop("last", None)
+            obj = fn(self, solution=solution, fva=fva)
+            if busy():
+                return obj
+            with _Guard():
+                try:
+                    model = self if kind == "model" else self.model
+                    use = solution if solution is not None else captured.get("last")
+                    if use is None or model is None or len(model.reactions) > BIG:
+                        count("C20.summaries_not_judged")
+                        return obj
+                    flux = {r.id: float(use.fluxes[r.id]) for r in model.reactions}
+                    frame = fva if isinstance(fva, pd.DataFrame) else None
+                    tol = model.tolerance
+                    ident = {"test": _S["test"]}
+                    count(f"C20.{kind}_summaries_judged")
+                    if kind == "model":
+                        if all(len(r.metabolites) == 1 for r in model.boundary):
+                            c20.judge_model_summary(acc, model, obj, flux, frame, tol, ident, lambda: None)
+                    elif kind == "metabolite":
+                        c20.judge_metabolite_summary(acc, model, self, obj, flux, frame, tol, ident, lambda: None, steady=True)
+                    else:
+                        fr_ = obj.to_frame()
+                        if list(fr_.index) != [self.id] or not c20.close(float(fr_.at[self.id, "flux"]), flux[self.id]):
+                            violation("C20", "C20/suite/reaction/flux", f"reaction summary of {self.id} shows {fr_.to_dict()}, solution flux {flux[self.id]}")
+                    c20.render_all(acc, obj, kind, ident)
+                except Exception as e:
+                    count("C20.oracle_errors")
+                    emit({"k": "oracle_error", "prop": "C20", "what": kind, "err": repr(e)[:300], "test": _S["test"]})
+            return obj
+
+        return summary
+
+    cobra.Model.summary = wrap("model", cobra.Model.summary)
+    cobra.Metabolite.summary = wrap("metabolite", cobra.Metabolite.summary)
+    cobra.Reaction.summary = wrap("reaction", cobra.Reaction.summary)
+
+
+INSTALLERS = {"C07": install_c07, "C20": install_c20, "C02": install_c02, "C01": install_c01, "C03": install_c03, "C04": install_c04, "C12": install_c12, "C13": install_c13, "C15": install_c15, "C16": install_c16}
 
 
 def install(props, logdir):
@@ -773,7 +898,7 @@ def set_test(nodeid):
     _S["evals_at_test_start"] = sum(v for k, v in _S["counters"].items() if k.endswith(EVAL_SUFFIXES))
 
 
-EVAL_SUFFIXES = ("xref_checks_at_optimize", "xref_checks_after_edit", "core_checks_at_optimize", "outermost_exits_checked", "optimize_judged", "slim_judged", "copies_checked", "analysis_calls_checked", "mutations_checked", "rows_checked")
+EVAL_SUFFIXES = ("knockouts_checked", "summaries_judged", "xref_checks_at_optimize", "xref_checks_after_edit", "core_checks_at_optimize", "outermost_exits_checked", "optimize_judged", "slim_judged", "copies_checked", "analysis_calls_checked", "mutations_checked", "rows_checked")
 
 
 def end_test():
